@@ -122,6 +122,25 @@ Deciding monitor M (boundary oracle, public API only):
            written; the re-dump is the dump; one more round in a third form.  Fixed grid: every atom x a third of the
            forms and every odd marker x every form (raw:enumerated, exact floor), plus seeded documents.
 
+* M.refuse   REFUSED ASSIGNMENTS LEAVE THE PARAGRAPH AS IT WAS (round 10).  The build histories also carry assignments
+           the unchanged tree answers with an exception - fp.files = [] / () / None / '' / an exhausted iterator / a list
+           with an empty, blank or blank-containing entry / with None or an int among the entries / an int; .copyright /
+           .license = None on Files and License paragraphs; a str, a plain pair, a list, an int where a License object
+           belongs; header.format = None / a multi-line str / an int; multi-line Upstream-Name; line-based lists with an
+           empty, blank or multi-line entry; raw fields given a value that ends in a newline, has an empty line or an
+           unindented continuation line, or is not a str; p['Files'] = ... / del p['License'] through the mapping
+           interface - on paragraphs that are still free, on paragraphs already added, on decoys, on a free Header() and
+           on the header of the document; before the first dump and between two complete dump / re-parse cycles.  The
+           table (which property refuses which value) is the module's own (model_refuses), established on the unchanged
+           tree.  WHETHER the assignment raises, and with which exception, is recorded, never judged.  Judged: right
+           AFTER it every typed getter of that paragraph returns the generator's value, the field names / order and every
+           raw field text (mapping interface) are what they were right before it, every other object created so far
+           still shows its own values; the document's dump after refused assignments between two dumps is the dump
+           before them; and the final dump / strict (non-strict) re-parse / re-dump of M.doc holds with the generator's
+           values.  Pattern lists that REPEAT patterns (['debian/*', 'po/*.po', 'debian/*'], twice in a row, three
+           times, the whole list twice) go through create(), assignment and late assignment: the files tuple is the list
+           that was given.
+
 Witnesses of state kept between objects are confirmed in a fresh interpreter (what
 --replay does): the shrunk case, the case, the case built twice, the case after the
 preceding documents of the process - first one that reproduces is the witness.
@@ -211,7 +230,22 @@ RULE = ('Seeded specs of copyright documents: header (optional Upstream-Name, Up
         'field as raw text (License, Files, Upstream-Contact included; fields without a property too), parsed from the '
         'written text or assembled over data objects, dumped, re-parsed strict from a second form, re-dumped, and once '
         'more from a third form; fixed grid: every atom x a third of the forms + every odd marker x every form.  Such a '
-        'document is non-trivial when it shows at least one non-normalised class or one odd marker.')
+        'document is non-trivial when it shows at least one non-normalised class or one odd marker.  REFUSED ASSIGNMENTS '
+        '(refuse:*, repeat:*): ALL refused values of the fixed table (per property of FilesParagraph / LicenseParagraph / '
+        'Header and for the mapping interface: None, empty list / tuple / iterator / str, lists with an empty / blank / '
+        'blank-containing / multi-line / None / int entry first or after valid entries, str or int instead of a list, '
+        'str / pair / list / tuple / int instead of a License, multi-line or int single-line values, raw values ending in '
+        'a newline / with an empty line / with an unindented continuation line / not a str, item assignment and deletion '
+        'of every restricted field name) x the stages free (before the paragraph is added / on an own Header() before it '
+        'is handed over / on the header of the document), added (right after add_*_paragraph), late (document complete, '
+        'before the dump), between (after one complete dump / re-parse cycle, before the final one) on one fixed small '
+        'document (refuse:enumerated, exact), plus seeded ordinary (50%) and factory (50%) documents with 1..5 refused '
+        'assignments on random targets (header, added paragraphs, decoys) and stages, values from the table or composed '
+        '(a valid generated list with one refused entry at a random position; a valid raw value with a refused tail), 30% '
+        'of them with a non-default Format; in these documents half of the Files pattern lists given to create(), 60% '
+        'of those assigned and assigned late REPEAT patterns (again at the end, twice in a row, three times, the whole list '
+        'twice, fixed lists such as ["debian/*", "po/*.po", "debian/*"]).  A document with a refused assignment is '
+        'non-trivial.')
 ASSUMPTIONS = [
     'domain: text lines never whitespace-only (unless empty) nor a lone "."; last line of a text non-blank; only \\n as '
     'line boundary (no \\r, \\v, \\f, \\x1c-\\x1e, \\x85, U+2028/9); first lines and single-line values without outer blanks',
@@ -303,6 +337,29 @@ ASSUMPTIONS = [
     'typed values of raw list fields: Files = raw.split() (whitespace-separated, continuation lines included), '
     'Upstream-Contact / Files-Excluded / Files-Included = non-empty stripped lines; a field that was not written reads '
     'as None / empty sequence',
+    'refused assignments: the table of what is refused (model_refuses) was established on the unchanged tree by probing '
+    'every setter with every value class and is the module\'s own: Files cannot be cleared (None, empty list / tuple / '
+    'iterator / str) and takes an iterable of non-empty str without whitespace; Copyright / License of a Files paragraph, '
+    'License of a License paragraph and Format of a header cannot be None (the other properties can: clearing them is an '
+    'ordinary assignment, not in the table); a License property takes a License object only; Format / Upstream-Name take '
+    'a single-line str; the line-based lists take an iterable of str that are non-blank single lines after stripping '
+    '(an EMPTY list clears the field: not in the table); raw fields take a str that does not end in a newline and whose '
+    'further lines are non-empty and start with a blank or TAB; item assignment / deletion through the mapping interface '
+    'is refused for the restricted field names of the class in any letter case (other names are accepted: not in the '
+    'table); refused strings contain no whitespace other than blank / TAB / newline; a spec entry the table does not '
+    'list is outside the domain (nothing demanded)',
+    'a refused assignment is an assignment that did not happen: the statement quantifies over documents built from valid '
+    'values, so after it the paragraph must hold exactly the values the generator gave it before - typed getters '
+    'compared with the SPEC, raw field texts / field order compared with a snapshot taken through the mapping interface '
+    'immediately before the assignment (taken only after the typed values were found equal to the spec); whether the '
+    'assignment raises and the exception type are recorded (refuse:raised:*, refuse:recorded:accepted-without-exception), '
+    'never judged: an assignment that is accepted AND changes nothing is silent, one that changes the paragraph is '
+    'reported whether or not it raised; the refused value itself is never mutated or reused by the harness (an iterator '
+    'token is a fresh iterator each time)',
+    'between two dumps: the first complete dump / strict re-parse cycle must have no finding before the refused '
+    'assignments are made; no other assignment is made between the two dump() calls that are compared',
+    'repeated patterns: the format does not forbid naming a pattern twice and the statement says "the same pattern '
+    'lists": a list with repetitions reads back element for element (no de-duplication, no re-ordering)',
     'License.from_str(s).to_str() == s is only demanded for s = License(synopsis, text).to_str() of an in-domain '
     'License whose decoded value was already equal to the generator\'s (so only what the stated inverse law implies '
     'for a pure to_str is demanded); never for hand-written encoded strings',
@@ -350,7 +407,7 @@ MUST_REACH = [
     'debian.deb822:RestrictedWrapper.dump',
 ]
 
-DOCS = {'quick': 9000, 'thorough': 560000}
+DOCS = {'quick': 8400, 'thorough': 560000}
 CODEC = {'quick': 200000, 'thorough': 11200000}
 LICENSES = {'quick': 30000, 'thorough': 1400000}
 FACTORY = {'quick': 1600, 'thorough': 80000}
@@ -360,6 +417,8 @@ FORMAT_IN_ORDINARY_DOCS = 0.08       # share of the ordinary / factory documents
 LISTS = {'quick': 20000, 'thorough': 1000000}
 # round-9 extension (non-normalised Unicode, odd continuation markers): totals per tier
 UNIDOCS = {'quick': 640, 'thorough': 42000}
+# round-10 extension (refused assignments, repeated patterns): seeded documents per tier (+ the fixed grid in every run)
+REFUSEDOCS = {'quick': 800, 'thorough': 56000}
 RAWDOCS = {'quick': 720, 'thorough': 56000}
 ULISTS = {'quick': 1600, 'thorough': 84000}
 UCODEC = {'quick': 6000, 'thorough': 420000}
@@ -780,6 +839,62 @@ FLOORS = {
                      'uni:first-input:stringio': 870, 'uni:first-input:text-file': 2900}},
 }
 
+# Round-10 extension (refused assignments / repeated patterns): the older floors were NOT regenerated (DOCS quick went
+# from 9000 to 8400, 7% below what they were measured with - they sit at 50%); the floors below are NEW and were
+# produced the same way (quick: min over VERIF_SEED 0-3, thorough: seed 0; 50% rounded down to two digits).  Monitors
+# M.refuse (refused assignments judged) / M.refuse-value (typed + raw values compared after them); counters refuse:stage:*,
+# refuse:target:*, refuse:raised:<exception>, refuse:property:<class>.<property>, refuse:value:<class of value>,
+# repeat:<create|assigned>:*: a run that never makes a refused assignment (or never repeats a pattern) is INCONCLUSIVE.
+# refuse:enumerated is floored at its exact size (every refused value x every stage).  No floor on a per-cell counter
+# refuse:<class>.<property>:<value> / repeat:assigned-late:* whose minimum was below 60 (the grid carries them), none on
+# refuse:recorded:* (whether an assignment raised is recorded, not judged).
+_R10_FLOORS = {
+    'quick': {'monitors': {'M.refuse': 1400, 'M.refuse-value': 13000},
+        'counters': {
+                     'refuse:F.[]:item-del': 31, 'refuse:F.[]:item-set': 31, 'refuse:H.[]:item-del': 33,
+                     'refuse:H.[]:item-set': 36, 'refuse:H.format:multi-line-str': 35,
+                     'refuse:H.upstream_name:multi-line-str': 31, 'refuse:L.[]:item-del': 41,
+                     'refuse:L.[]:item-set': 44, 'refuse:L.license:str-instead-of-license': 43,
+                     'refuse:document-dumped-before-and-after': 300, 'refuse:documents': 790, 'refuse:enumerated': 796,
+                     'refuse:property:F.[]': 63, 'refuse:property:F.comment': 61, 'refuse:property:F.copyright': 61,
+                     'refuse:property:F.files': 170, 'refuse:property:F.license': 56, 'refuse:property:H.[]': 69,
+                     'refuse:property:H.comment': 41, 'refuse:property:H.copyright': 49,
+                     'refuse:property:H.disclaimer': 44, 'refuse:property:H.files_excluded': 57,
+                     'refuse:property:H.files_included': 56, 'refuse:property:H.format': 69,
+                     'refuse:property:H.license': 40, 'refuse:property:H.source': 49,
+                     'refuse:property:H.upstream_contact': 58, 'refuse:property:H.upstream_name': 35,
+                     'refuse:property:L.[]': 94, 'refuse:property:L.comment': 89, 'refuse:property:L.license': 150,
+                     'refuse:raised:AttributeError': 360, 'refuse:raised:MachineReadableFormatError': 340,
+                     'refuse:raised:RestrictedFieldError': 230, 'refuse:raised:TypeError': 130,
+                     'refuse:raised:ValueError': 300, 'refuse:stage:added': 190, 'refuse:stage:between': 370,
+                     'refuse:stage:free': 430, 'refuse:stage:late': 390, 'refuse:target:added-files-paragraph': 300,
+                     'refuse:target:added-license-paragraph': 230, 'refuse:target:free-files-paragraph': 100,
+                     'refuse:target:free-header': 83, 'refuse:target:free-license-paragraph': 76,
+                     'refuse:target:header-of-document': 530, 'refuse:value:blank-only-entry': 24,
+                     'refuse:value:blank-only-entry-after-valid-entries': 27, 'refuse:value:empty-entry': 33,
+                     'refuse:value:empty-entry-after-valid-entries': 40, 'refuse:value:empty-iter': 4,
+                     'refuse:value:empty-list': 5, 'refuse:value:entry-with-blank': 23,
+                     'refuse:value:entry-with-blank-after-valid-entries': 24, 'refuse:value:entry-with-newline': 20,
+                     'refuse:value:entry-with-newline-after-valid-entries': 23, 'refuse:value:int': 98,
+                     'refuse:value:int-entry': 13, 'refuse:value:item-del': 110, 'refuse:value:item-set': 110,
+                     'refuse:value:list-instead-of-license': 38, 'refuse:value:list-instead-of-str': 36,
+                     'refuse:value:multi-line-str': 73, 'refuse:value:none': 53, 'refuse:value:none-entry': 30,
+                     'refuse:value:pair-instead-of-license': 34, 'refuse:value:raw-ends-in-newline': 100,
+                     'refuse:value:raw-unindented-continuation': 100, 'refuse:value:raw-with-empty-line': 95,
+                     'refuse:value:str-instead-of-license': 71, 'refuse:value:str-instead-of-list': 30,
+                     'refuse:value:tuple-instead-of-license': 36, 'refuse:value:tuple-instead-of-str': 38,
+                     'repeat:assigned:all-patterns-equal': 44, 'repeat:assigned:pattern-three-times-or-more': 41,
+                     'repeat:assigned:repeated-pattern': 240, 'repeat:assigned:repeated-pattern-adjacent': 130,
+                     'repeat:assigned:repeated-pattern-apart': 130, 'repeat:create:all-patterns-equal': 120,
+                     'repeat:create:pattern-three-times-or-more': 150, 'repeat:create:repeated-pattern': 1700,
+                     'repeat:create:repeated-pattern-adjacent': 670, 'repeat:create:repeated-pattern-apart': 1200}},
+    'thorough': {'monitors': {},
+        'counters': {}},
+}
+for _tier in _R10_FLOORS:
+    FLOORS[_tier]['monitors'].update(_R10_FLOORS[_tier]['monitors'])
+    FLOORS[_tier]['counters'].update(_R10_FLOORS[_tier]['counters'])
+
 # ---------------------------------------------------------------------------
 # domain predicates (shared by generator, shrinker and replay)
 
@@ -934,6 +1049,179 @@ BYTE_INPUTS = ('bytes', 'bytes-doc', 'bytes-noends', 'bytesio', 'binary-file')
 ALLFORMS_OFFSETS = (1, 3, 5, 8)
 
 
+# ---------------------------------------------------------------------------
+# round-10 extension: REFUSED assignments (values a typed setter / the mapping interface rejects with an exception).
+# The table below is the module's OWN statement of what the unchanged tree refuses (established by probing every
+# setter with every value class; nothing here calls the library).  A refusal is spelled [stage, attr, token]:
+#   stage  'free'    right after the paragraph was created and assigned (before it is added to the document; for the
+#                    header: after the header assignments, before an own Header() is handed to the document)
+#          'added'   right after the paragraph was added to the document (a decoy is never added: still free)
+#          'late'    after every paragraph was created / added and the late assignments were made (before the final dump)
+#          'between' after a complete dump / strict re-parse cycle of the document, before the final one
+#   attr   a property name, or '[]' for the mapping interface (p[name] = v / del p[name])
+#   token  [form, payload]: JSON spelling of the refused value
+REFUSE_STAGES = ('free', 'added', 'late', 'between')
+REFUSE_FORMS = ('none', 'list', 'tuple', 'iter', 'str', 'int', 'list+none', 'list+int', 'pair', 'item-set', 'item-del')
+RESTRICTED_NAMES = {
+    'F': ('Files', 'Copyright', 'License', 'Comment'),
+    'L': ('License', 'Comment', 'Files'),
+    'H': ('Format', 'Upstream-Name', 'Upstream-Contact', 'Source', 'Disclaimer', 'Comment', 'License', 'Copyright',
+          'Files-Excluded', 'Files-Included'),
+}
+
+
+def _table_of(t):
+    return HEADER_FIELDS if t == 'H' else FILES_FIELDS if t == 'F' else LICENSE_FIELDS if t == 'L' else None
+
+
+def _allow_none(t, attr):
+    if t == 'H':
+        return attr != 'format'
+    return _table_of(t)[attr][2]
+
+
+def _payload_str_ok(s):
+    """Strings inside refused values: clean characters; the only whitespace is blank, TAB, newline."""
+    return _clean(s) and all(ch in ' \t\n' or not ch.isspace() for ch in s)
+
+
+def token_ok(tok):
+    if not isinstance(tok, list) or len(tok) != 2 or tok[0] not in REFUSE_FORMS:
+        return False
+    form, payload = tok
+    if form == 'none':
+        return payload is None
+    if form == 'int':
+        return isinstance(payload, int) and not isinstance(payload, bool)
+    if form in ('str', 'item-del'):
+        return isinstance(payload, str) and _payload_str_ok(payload)
+    if form == 'item-set':
+        return isinstance(payload, list) and len(payload) == 2 and all(isinstance(x, str) and _payload_str_ok(x) for x in payload)
+    if form == 'pair':
+        return isinstance(payload, list) and len(payload) == 2 and all(isinstance(x, str) and _payload_str_ok(x) for x in payload)
+    return isinstance(payload, list) and all(isinstance(x, str) and _payload_str_ok(x) for x in payload)
+
+
+def _has_ws(s):
+    return any(ch in ' \t\n' for ch in s)
+
+
+def model_refuses(t, attr, tok):
+    """True when the unchanged tree answers this assignment with an exception (and changes nothing)."""
+    form, payload = tok
+    if attr == '[]':
+        if form == 'item-set':
+            return payload[0].lower() in [n.lower() for n in RESTRICTED_NAMES[t]]
+        if form == 'item-del':
+            return payload.lower() in [n.lower() for n in RESTRICTED_NAMES[t]]
+        return False
+    table = _table_of(t)
+    if table is None or attr not in table or form in ('item-set', 'item-del'):
+        return False
+    kind = table[attr][1]
+    if form == 'none':
+        return not _allow_none(t, attr)
+    if kind == 'patterns':
+        # whitespace-separated list: an empty list cannot be written (the field cannot be cleared), an entry may not be
+        # empty nor contain whitespace, the argument must be an iterable of str
+        if form in ('list', 'tuple', 'iter'):
+            return len(payload) == 0 or any(e == '' or _has_ws(e) for e in payload)
+        if form == 'str':               # iterated character by character
+            return payload == '' or _has_ws(payload)
+        return form in ('list+none', 'list+int', 'int')
+    if kind == 'lines':
+        # one entry per line: an entry may not be blank nor span lines (after stripping); an EMPTY list clears the field
+        if form in ('list', 'tuple', 'iter'):
+            return any(e.strip() == '' or '\n' in e.strip() for e in payload)
+        if form == 'str':
+            return any(ch in ' \t\n' for ch in payload)
+        return form in ('list+none', 'list+int', 'int')
+    if kind == 'license':
+        return form in ('str', 'int', 'list', 'tuple', 'pair', 'iter')          # anything that is not a License object
+    if kind in ('single', 'format'):
+        if form == 'str':
+            return '\n' in payload
+        return form == 'int'
+    if kind == 'raw':
+        if form == 'str':
+            if payload.endswith('\n'):
+                return True
+            return any(l == '' or l[0] not in ' \t' for l in payload.split('\n')[1:])
+        return form in ('int', 'list', 'tuple')
+    return False
+
+
+def token_value(tok):
+    form, payload = tok
+    if form == 'list':
+        return list(payload)
+    if form == 'tuple' or form == 'pair':
+        return tuple(payload)
+    if form == 'iter':
+        return iter(list(payload))
+    if form == 'list+none':
+        return list(payload) + [None]
+    if form == 'list+int':
+        return list(payload) + [7]
+    return payload              # none / str / int
+
+
+def refuse_class(t, attr, tok):
+    """Counter name of one refused value."""
+    form, payload = tok
+    if attr == '[]':
+        return form
+    kind = _table_of(t)[attr][1]
+    if form == 'none':
+        return 'none'
+    if form in ('int', 'list+none', 'list+int'):
+        return {'int': 'int', 'list+none': 'none-entry', 'list+int': 'int-entry'}[form]
+    if kind in ('patterns', 'lines'):
+        if form == 'str':
+            return 'empty-str' if payload == '' else 'str-instead-of-list'
+        if not payload:
+            return 'empty-%s' % form
+        bad = [i for i, e in enumerate(payload) if e.strip() == '' or (_has_ws(e) if kind == 'patterns' else '\n' in e.strip())]
+        e = payload[bad[0]]
+        what = ('empty-entry' if e == '' else 'blank-only-entry' if e.strip() == '' else
+                'entry-with-newline' if '\n' in e else 'entry-with-blank')
+        return what + ('-after-valid-entries' if bad[0] > 0 else '')
+    if kind == 'license':
+        return '%s-instead-of-license' % form
+    if kind in ('single', 'format'):
+        return 'multi-line-str'
+    if form != 'str':
+        return '%s-instead-of-str' % form
+    if payload.endswith('\n'):
+        return 'raw-ends-in-newline'
+    if any(l == '' for l in payload.split('\n')[1:]):
+        return 'raw-with-empty-line'
+    return 'raw-unindented-continuation'
+
+
+def refusals_ok(t, entries, decoy=False):
+    if not isinstance(entries, list):
+        return False
+    for e in entries:
+        if not isinstance(e, list) or len(e) != 3:
+            return False
+        stage, attr, tok = e
+        if stage not in REFUSE_STAGES or (t == 'H' and stage == 'added'):
+            return False
+        if not isinstance(attr, str) or not token_ok(tok) or not model_refuses(t, attr, tok):
+            return False
+    return True
+
+
+def all_refusals(case):
+    """[(t, decoy, stage, attr, token)] of a spec."""
+    res = [('H', False, s, a, k) for s, a, k in case.get('hrefuse', [])]
+    for op in case.get('ops', []):
+        for s, a, k in op.get('refuse', []):
+            res.append((op['t'], bool(op.get('decoy')), s, a, k))
+    return res
+
+
 def _rot(mode, k):
     """The input form k steps after `mode`: within INPUTS for the four original forms (what the module always
     did), within ALL_INPUTS for the newer ones."""
@@ -1001,9 +1289,13 @@ def spec_in_domain(case):
                 return False
         if not _hdata_ok(case.get('hdata')) or not _fmt_parsed_ok(case.get('fmt_parsed', [])):
             return False
+        if not refusals_ok('H', case.get('hrefuse', [])):
+            return False
         for op in case.get('ops', []):
             table = FILES_FIELDS if op['t'] == 'F' else LICENSE_FIELDS if op['t'] == 'L' else None
             if table is None:
+                return False
+            if not refusals_ok(op['t'], op.get('refuse', [])):
                 return False
             if op['t'] == 'F':
                 if not (patterns_ok(op['files']) and raw_ok(op['copyright']) and license_ok(op['license'])):
@@ -1558,6 +1850,180 @@ def gen_multi(r):
     for d in docs:
         d.pop('late_after_dump', None)
     return {'kind': 'multi', 'docs': docs}
+
+
+# ---------------------------------------------------------------------------
+# round-10 extension: refused assignments in the build histories, repeated patterns
+
+REFUSE_TOKENS = {
+    'patterns': [['none', None], ['list', []], ['tuple', []], ['iter', []], ['str', ''], ['list', ['a b']],
+                 ['list', ['debian/*', 'po/*.po', 'x y']], ['list', ['a\tb']], ['list', ['a\nb']], ['tuple', ['src/*', '']],
+                 ['list', ['', 'src/*']], ['list', ['a', ' ']], ['list', [' ']], ['list', ['']], ['list+none', ['a']],
+                 ['list+none', []], ['list+int', ['debian/*']], ['int', 5], ['str', 'a b'], ['str', 'a\nb'],
+                 ['iter', ['ok', 'not ok']], ['tuple', ['a b']], ['list', ['debian/*', 'debian/*', '']]],
+    'lines': [['list', ['a', '']], ['list', ['', 'a']], ['list', [' ']], ['list', ['']], ['tuple', ['a', '\t']],
+              ['list', ['a\nb']], ['list', ['ok', 'a\nb', 'c']], ['iter', ['a', '']], ['list+none', ['a']],
+              ['list+none', []], ['list+int', ['a']], ['int', 5], ['str', 'a b'], ['str', 'a\nb']],
+    'license': [['none', None], ['str', 'GPL-2+'], ['str', ''], ['pair', ['GPL-2+', 'text']], ['list', ['MIT', 't']],
+                ['int', 5], ['tuple', []]],
+    'single': [['str', 'a\nb'], ['str', 'a\n'], ['str', '\n'], ['str', 'a\n b'], ['int', 5]],
+    'format': [['none', None], ['str', CUR_FORMAT + '\n'], ['str', 'a\nb'], ['str', CUR_FORMAT + '\n x'], ['int', 5]],
+    'raw': [['none', None], ['str', 'a\nb'], ['str', 'a\n'], ['str', 'a\n\n b'], ['str', 'a\n b\n'], ['str', '\nb'],
+            ['str', '2001 A\n 2002 B\n\n 2003 C'], ['int', 5], ['list', ['a']], ['tuple', []]],
+}
+
+
+def refuse_tokens(t, attr):
+    """The fixed refused values of one property (those of the list for its kind the model says are refused)."""
+    if attr == '[]':
+        toks = []
+        for name in RESTRICTED_NAMES[t]:
+            toks.append(['item-set', [name, 'x']])
+            toks.append(['item-del', name])
+        toks.append(['item-set', [RESTRICTED_NAMES[t][0].lower(), 'y']])
+        toks.append(['item-del', RESTRICTED_NAMES[t][0].upper()])
+        return toks
+    kind = _table_of(t)[attr][1]
+    return [tok for tok in REFUSE_TOKENS[kind] if model_refuses(t, attr, tok)]
+
+
+def gen_refuse_token(r, t, attr):
+    toks = refuse_tokens(t, attr)
+    if attr != '[]':
+        kind = _table_of(t)[attr][1]
+        if kind in ('patterns', 'lines') and r.random() < 0.4:
+            # a list of valid entries with ONE entry the setter refuses, at any position
+            good = gen_patterns(r)[:5] if kind == 'patterns' else gen_linelist(r, 'contact')
+            bad = r.choice(['', ' ', 'a b', 'x\ty', 'a\nb'] if kind == 'patterns' else ['', ' ', '\t', 'a\nb'])
+            good.insert(r.randint(0, len(good)), bad)
+            tok = [r.choice(['list', 'list', 'tuple', 'iter']), good]
+            if token_ok(tok) and model_refuses(t, attr, tok):
+                return tok
+        if kind == 'raw' and r.random() < 0.3:
+            v = gen_raw(r, 3)
+            tok = ['str', v + r.choice(['\n', '\nnot indented', '\n\n after an empty line'])]
+            if token_ok(tok) and model_refuses(t, attr, tok):
+                return tok
+    return r.choice(toks)
+
+
+REFUSE_ATTR_CYCLE = {
+    'F': ('files', 'files', 'files', 'copyright', 'license', 'comment', '[]'),
+    'L': ('license', 'license', 'comment', '[]'),
+    'H': ('format', 'format', 'upstream_name', 'upstream_contact', 'source', 'disclaimer', 'comment', 'license',
+          'copyright', 'files_excluded', 'files_included', '[]'),
+}
+REPEAT_LISTS = [['debian/*', 'po/*.po', 'debian/*'], ['*', '*'], ['a', 'a', 'a'], ['src/*.c', 'src/*.h', 'src/*.c', 'src/*.h'],
+                ['debian/*', 'debian/*', 'po/*.po'], ['po/*.po', 'debian/*', 'debian/*']]
+
+
+def gen_repeated_patterns(r, ps):
+    """`ps` with at least one pattern occurring twice or more."""
+    k = r.random()
+    if k < 0.25:
+        return list(r.choice(REPEAT_LISTS))
+    ps = list(ps)[:6]
+    x = r.choice(ps)
+    if k < 0.5:
+        ps.append(x)                                    # again at the end
+    elif k < 0.7:
+        ps.insert(ps.index(x), x)                       # twice in a row
+    elif k < 0.85:
+        ps.insert(r.randint(0, len(ps)), x)
+        ps.insert(r.randint(0, len(ps)), x)             # three times
+    else:
+        ps = ps + ps                                    # the whole list twice
+    return ps
+
+
+def repeat_classes(ps):
+    """Classes of repetition one pattern list shows ([] when all patterns differ)."""
+    if len(set(ps)) == len(ps):
+        return []
+    cl = ['repeated-pattern']
+    if any(ps[i] == ps[i + 1] for i in range(len(ps) - 1)):
+        cl.append('repeated-pattern-adjacent')
+    if any(ps[i] in ps[i + 2:] and ps[i + 1] != ps[i] for i in range(len(ps) - 2)):
+        cl.append('repeated-pattern-apart')
+    if any(ps.count(x) >= 3 for x in set(ps)):
+        cl.append('pattern-three-times-or-more')
+    if len(set(ps)) == 1:
+        cl.append('all-patterns-equal')
+    return cl
+
+
+def gen_refuse_doc(r):
+    """An ordinary or a factory document whose build history also carries 1..5 REFUSED assignments (on free
+    paragraphs, on added ones, on decoys, on the header; before the first dump and between two dumps) and whose
+    pattern lists repeat patterns."""
+    k = r.random()
+    case = gen_doc(r) if k < 0.5 else gen_factory_doc(r, small=(k < 0.8))
+    ops = case['ops']
+    if not any(op['t'] == 'F' for op in ops):
+        # appended (a late assignment addresses the added paragraphs by index: the existing indices stay valid)
+        ops.append({'t': 'F', 'files': gen_patterns(r), 'copyright': gen_raw(r, 3, copyright_like=True),
+                    'license': gen_license(r), 'then': [], 'pos': r.randrange(1000)})
+    # repeated patterns: at creation, by assignment, late
+    for op in ops:
+        if op['t'] == 'F':
+            if r.random() < 0.5:
+                op['files'] = gen_repeated_patterns(r, op['files'])
+            for pair in op.get('then', []):
+                if pair[0] == 'files' and r.random() < 0.6:
+                    pair[1] = gen_repeated_patterns(r, pair[1])
+            if r.random() < 0.15:
+                op.setdefault('then', []).append(['files', gen_repeated_patterns(r, gen_patterns(r))])
+    for entry in case.get('late', []):
+        if entry[1] == 'files' and r.random() < 0.6:
+            entry[2] = gen_repeated_patterns(r, entry[2])
+    # refused assignments
+    targets = ['H'] + list(range(len(ops)))
+    for _ in range(r.choice([1, 1, 2, 2, 3, 4, 5])):
+        tg = r.choice(targets) if r.random() < 0.8 else 'H'
+        t = 'H' if tg == 'H' else ops[tg]['t']
+        attr = r.choice(REFUSE_ATTR_CYCLE[t])
+        tok = gen_refuse_token(r, t, attr)
+        stage = r.choice(['free', 'late', 'between'] if t == 'H' else REFUSE_STAGES)
+        if tg == 'H':
+            case.setdefault('hrefuse', []).append([stage, attr, tok])
+        else:
+            ops[tg].setdefault('refuse', []).append([stage, attr, tok])
+    if r.random() < 0.5:
+        case['early'] = 1
+    if r.random() < 0.5:
+        case['nonstrict'] = 1
+    if r.random() < 0.3:
+        # a Format other than the default one in the header (a refused header assignment must leave THAT value)
+        case['header'].insert(r.randint(0, len(case['header'])), ['format', gen_format(r)])
+    return case
+
+
+def enum_refuse_docs():
+    """Complete fixed sub-space: every refused value of every property (and of the mapping interface) of the three
+    paragraph classes x every stage, on one small fixed document (repeated patterns, multi-line texts)."""
+    for t in ('F', 'L', 'H'):
+        table = _table_of(t)
+        for attr in sorted(table) + ['[]']:
+            for tok in refuse_tokens(t, attr):
+                for stage in REFUSE_STAGES:
+                    if t == 'H' and stage == 'added':
+                        stage = 'free-own'
+                    ops = [{'t': 'F', 'files': ['debian/*', 'po/*.po', 'debian/*'], 'copyright': '2001 A\n 2002 B',
+                            'license': ['GPL-2+', 'text\n\n indented'], 'then': [['comment', 'c\n d']], 'pos': 2},
+                           {'t': 'L', 'license': ['GPL-2+', 'Full text.\n\nMore.'], 'then': [], 'pos': 1}]
+                    case = {'kind': 'doc', 'input': INPUTS[(len(attr) + len(stage)) % len(INPUTS)],
+                            'header': [['upstream_name', 'n'], ['upstream_contact', ['A <a@example.org>', 'B']],
+                                       ['source', 'https://example.org/\n second line'], ['comment', 'hc'],
+                                       ['license', ['MIT', 'x\n\ny']], ['files_excluded', ['a', 'a']]],
+                            'ops': ops, 'enumerated_refusal': 1}
+                    if stage == 'free-own':
+                        case['hdr'] = 'own'
+                        stage = 'free'
+                    if t == 'H':
+                        case['hrefuse'] = [[stage, attr, tok]]
+                    else:
+                        ops[0 if t == 'F' else 1]['refuse'] = [[stage, attr, tok]]
+                    yield case
 
 
 def gen_list_batch(r, field, n):
@@ -2811,6 +3277,8 @@ class _State(object):
         self.watched = 0       # values compared on objects other than the one just created / assigned
         self.verified = set()  # ids of objects whose values were all as written the last time they were read
         self.bad = set()       # ids of objects already reported (not reported again by watch)
+        self.pending = []      # refused assignments of the stages 'late' / 'between': (p, t, vals, label, stage, attr, token, target)
+        self.refused = []      # what was done: (stage, target class, t, attr, value class, exception name or None, values compared)
 
     def objects(self):
         yield self.header, 'H', self.hcur, 'header'
@@ -2844,6 +3312,75 @@ class _State(object):
         for p, t, vals, label in self.objects():
             if p is not None and p is not skip:
                 self.watched += self.check(p, t, vals, where, label, copyright, out)
+
+
+def _raw_snapshot(p):
+    """Field names in order and the raw text of every field, through the mapping interface of the paragraph."""
+    keys = list(p)
+    return keys, [p[k] for k in keys]
+
+
+def _refuse_one(st, p, t, vals, label, stage, attr, tok, target, copyright, out):
+    """One assignment the unchanged tree refuses.  Whether (and with what) it raises is recorded, not judged;
+    judged is what the paragraph shows AFTERWARDS: every typed getter still returns the generator's value, the raw
+    field texts and the field order are what they were before, every other object keeps its values."""
+    if id(p) in st.bad:
+        return
+    # baseline: the object shows the generator's values now (else: an ordinary conversion finding, nothing more is asked)
+    before = len(out)
+    st.check(p, t, vals, 'built' if id(p) not in st.verified else 'watched', label, copyright, out)
+    if len(out) > before:
+        return
+    try:
+        snap = _raw_snapshot(p)
+    except Exception as e:
+        out.append(('raw-read-raises/%s' % type(e).__name__, 'paragraph %s (%s): reading the raw fields raised %r' % (label, t, e)))
+        st.bad.add(id(p))
+        return
+    raised = None
+    try:
+        if attr == '[]':
+            if tok[0] == 'item-set':
+                p[tok[1][0]] = tok[1][1]
+            else:
+                del p[tok[1]]
+        else:
+            setattr(p, attr, token_value(tok))
+    except Exception as e:
+        raised = type(e).__name__
+    what = ('%s.%s = %r' % (t, attr, tok)) if attr != '[]' else ('%s: %s %r through the mapping interface' % (t, tok[0], tok[1]))
+    how = ('refused with %s' % raised) if raised else 'NOT refused (no exception)'
+    note = ' [after the assignment %s, %s; stage %s, %s]' % (what, how, stage, target)
+    before = len(out)
+    n = st.check(p, t, vals, 'after-refused-assignment', label, copyright, out)
+    try:
+        snap2 = _raw_snapshot(p)
+    except Exception as e:
+        snap2 = None
+        out.append(('after-refused-assignment-raw-read-raises/%s' % type(e).__name__,
+                    'paragraph %s (%s): reading the raw fields raised %r' % (label, t, e)))
+    if snap2 is not None:
+        n += len(snap[0])
+        if snap2[0] != snap[0]:
+            out.append(('after-refused-assignment-field-set-or-order-differs',
+                        'paragraph %s (%s): fields before %r, after %r' % (label, t, snap[0], snap2[0])))
+        elif snap2[1] != snap[1]:
+            out.append(('after-refused-assignment-raw-field-text-differs',
+                        'paragraph %s (%s): raw field texts before %r, after %r' % (label, t, snap[1], snap2[1])))
+    if len(out) > before:
+        out[before:] = [(k, m + note) for k, m in out[before:]]
+        st.bad.add(id(p))
+        st.verified.discard(id(p))
+    else:
+        # every OTHER object created so far still shows its own values
+        st.watch(copyright, out, skip=p)
+    st.refused.append((stage, target, t, attr, refuse_class(t, attr, tok), raised, n))
+
+
+def _apply_refusals(st, stage, copyright, out):
+    for p, t, vals, label, stg, attr, tok, target in st.pending:
+        if stg == stage:
+            _refuse_one(st, p, t, vals, label, stg, attr, tok, target, copyright, out)
 
 
 def _build(case, copyright, out, stats, licobjs=None):
@@ -2903,6 +3440,12 @@ def _build(case, copyright, out, stats, licobjs=None):
         for attr, val in case.get('header', []):
             _lib(setattr, h, attr, to_lib(HEADER_FIELDS[attr][1], val))
             st.hcur[attr] = val
+        htarget = 'free-header' if own else 'header-of-document'
+        for stage, attr, tok in case.get('hrefuse', []):
+            if stage == 'free':
+                _refuse_one(st, h, 'H', st.hcur, 'header', stage, attr, tok, htarget, copyright, out)
+            else:
+                st.pending.append((h, 'H', st.hcur, 'header', stage, attr, tok, 'header-of-document'))
         if own:
             c.header = h
         for k in range(1, nh, 2):
@@ -2925,15 +3468,27 @@ def _build(case, copyright, out, stats, licobjs=None):
             for attr, val in op.get('then', []):
                 _lib(setattr, p, attr, to_lib(table[attr][1], val, reuse))
                 vals[attr] = val
+            kname = 'files-paragraph' if op['t'] == 'F' else 'license-paragraph'
+            for stage, attr, tok in op.get('refuse', []):
+                if stage == 'free':
+                    _refuse_one(st, p, op['t'], vals, 'created-op', stage, attr, tok,
+                                ('decoy-' if op.get('decoy') else 'free-') + kname, copyright, out)
             if op.get('decoy'):
                 st.decoys.append([p, op['t'], vals, 'decoy#%d' % nd])
                 nd += 1
+                plabel, ptarget = 'decoy#%d' % (nd - 1), 'decoy-' + kname
             else:
                 if op['t'] == 'F':
                     _lib(c.add_files_paragraph, p)
                 else:
                     _lib(c.add_license_paragraph, p)
                 st.built.append([p, op['t'], vals])
+                plabel, ptarget = 'added#%d' % (len(st.built) - 1), 'added-' + kname
+            for stage, attr, tok in op.get('refuse', []):
+                if stage == 'added':
+                    _refuse_one(st, p, op['t'], vals, plabel, stage, attr, tok, ptarget, copyright, out)
+                elif stage != 'free':
+                    st.pending.append((p, op['t'], vals, plabel, stage, attr, tok, ptarget))
             if early:
                 if op.get('then'):
                     st.check(p, op['t'], vals, 'created', label, copyright, out)
@@ -2995,10 +3550,39 @@ def _check_doc(case, stats):
                 stats['late_after_dump'] = 1
         if not _apply_late(case, st, copyright, out) or out:
             return out
+    if st.pending:
+        # refused assignments on the finished document: before the (final) dump ...
+        _apply_refusals(st, 'late', copyright, out)
+        if out:
+            return out
+        if any(x[4] == 'between' for x in st.pending):
+            # ... and BETWEEN two dumps: a complete dump / strict re-parse cycle first, then the refused assignments; the
+            # document must dump to the same text as before them
+            _verify(case, st, copyright, out, None, perm=False)
+            if out:
+                return out
+            try:
+                text_a = st.c.dump()
+            except Exception as e:
+                return out + [('dump-raises/%s' % type(e).__name__, 'dump() raised %r' % (e,))]
+            _apply_refusals(st, 'between', copyright, out)
+            if out:
+                return out
+            try:
+                text_b = st.c.dump()
+            except Exception as e:
+                return out + [('dump-raises-after-refused-assignment/%s' % type(e).__name__,
+                               'dump() raised %r after refused assignments %r' % (e, [x[4:] for x in st.pending]))]
+            if text_b != text_a:
+                return out + [('dump-differs-after-refused-assignment', 'dump before %r, after the refused assignments %r: %r'
+                               % (text_a, [x[4:] for x in st.pending if x[4] == 'between'], text_b))]
+            if stats is not None:
+                stats['refuse_between_dumps'] = 1
     # ... and (again) with the final values
     _verify(case, st, copyright, out, stats, perm=True)
     if stats is not None:
         stats['watched'] = st.watched
+        stats['refused'] = list(st.refused)
     return out
 
 
@@ -3443,6 +4027,15 @@ def _candidates(case):
     for i in range(len(case.get('late', []))):
         c = copy.deepcopy(case)
         del c['late'][i]
+        yield c
+    for i, op in enumerate(ops):
+        for j in range(len(op.get('refuse', []))):
+            c = copy.deepcopy(case)
+            del c['ops'][i]['refuse'][j]
+            yield c
+    for j in range(len(case.get('hrefuse', []))):
+        c = copy.deepcopy(case)
+        del c['hrefuse'][j]
         yield c
     for flag in ('late_after_dump', 'hdr', 'early', 'nonstrict', 'second_round', 'allforms'):
         if case.get(flag):
@@ -4307,6 +4900,14 @@ def cases(ctx):
         if rx.random() < FORMAT_IN_ORDINARY_DOCS:
             add_format_to_doc(case, rx)
         yield case
+    # 1h. refused assignments in the build histories (complete fixed sub-space value x stage, sharded; then seeded
+    #     ordinary / factory documents with 1..5 refused assignments and repeated patterns)
+    for i, case in enumerate(enum_refuse_docs()):
+        if ctx.mine(i):
+            yield case
+    n = ctx.size(REFUSEDOCS['quick'], REFUSEDOCS['thorough'])
+    for i in range(n):
+        yield gen_refuse_doc(ctx.rng('refdoc', i))
     # 1e. header documents: Format values other than the canonical URL (complete fixed sub-space, sharded; then
     #     seeded), URL-ish values in the other header fields
     for i, case in enumerate(enum_format_docs()):
@@ -4431,6 +5032,46 @@ def _count_factory(ctx, case, stats):
         ctx.mon('M.nonstrict-value', stats['nonstrict_values'])
     if stats.get('watched'):
         ctx.mon('M.watch', stats['watched'])
+
+
+def _count_refusals(ctx, case, stats):
+    """Counters of the refused-assignment / repeated-pattern classes for one document spec that was judged."""
+    rep = set()
+    for op in case.get('ops', []):
+        if op['t'] == 'F':
+            for cl in repeat_classes(op['files']):
+                rep.add('create:' + cl)
+            for attr, val in op.get('then', []):
+                if attr == 'files':
+                    for cl in repeat_classes(val):
+                        rep.add('assigned:' + cl)
+    for _target, attr, val in case.get('late', []):
+        if attr == 'files' and val is not None:
+            for cl in repeat_classes(val):
+                rep.add('assigned-late:' + cl)
+    for name in rep:
+        ctx.count('repeat:%s' % name)
+    done = stats.get('refused')
+    if not done:
+        return
+    ctx.count('refuse:documents')
+    if case.get('enumerated_refusal'):
+        ctx.count('refuse:enumerated')
+    if stats.get('refuse_between_dumps'):
+        ctx.count('refuse:document-dumped-before-and-after')
+    ctx.mon('M.refuse', len(done))
+    for stage, target, t, attr, cls, raised, n in done:
+        ctx.mon('M.refuse-value', n)
+        ctx.count('refuse:stage:%s' % stage)
+        ctx.count('refuse:target:%s' % target)
+        ctx.count('refuse:%s.%s:%s' % (t, attr, cls))
+        ctx.count('refuse:value:%s' % cls)
+        ctx.count('refuse:property:%s.%s' % (t, attr))
+        if raised:
+            ctx.count('refuse:raised:%s' % raised)
+        else:
+            ctx.count('refuse:recorded:accepted-without-exception')
+            ctx.count('refuse:recorded:accepted-without-exception:%s.%s:%s' % (t, attr, cls))
 
 
 def _count_formats(ctx, case, stats):
@@ -4704,6 +5345,7 @@ def run_case(ctx, case):
     ctx.count('paras:%d' % len(real_ops(case)))
     _count_formats(ctx, case, stats)
     _count_factory(ctx, case, stats)
+    _count_refusals(ctx, case, stats)
     if stats.get('allforms'):
         ctx.mon('M.allforms', stats['allforms'])
         ctx.mon('M.allforms-value', stats.get('allforms_values', 0))
@@ -4721,7 +5363,7 @@ def run_case(ctx, case):
             ctx.count('perm:%s' % cl)
         ctx.count('perm-input:%s' % case['input'])
     if nontrivial or any(f.startswith('punct-') for f in feats) or \
-            any(v != CUR_FORMAT for _how, v in format_values(case)):
+            any(v != CUR_FORMAT for _how, v in format_values(case)) or stats.get('refused'):
         ctx.nontrivial()
     if found:
         _report_doc_findings(ctx, case, found)
